@@ -66,6 +66,9 @@ enum DepthKind {
     ErrorFirst,
     /// three-step API on <x>^n: the tree is cloned before it is rendered
     StagedClone,
+    /// <a href=..> around <x>^n (link content is inspected for emptiness), also with
+    /// nothing inside the innermost element
+    InLink,
 }
 
 #[derive(Clone, Copy, Debug)]
@@ -87,6 +90,13 @@ fn depth_table(tier: Tier) -> Vec<DepthCase> {
         t.push(DepthCase { kind: DepthKind::ErrorFirst, tag, n: 100_000 });
     }
     t.push(DepthCase { kind: DepthKind::StagedClone, tag: "em", n: 20_000 });
+    // (three times the depth named in the property: the harness is an optimised build
+    // whose stack frames are a fraction of a debug build's, and a per-level recursion
+    // that a debug build hits at 10^4 levels needs about 3*10^5 here; only formatting
+    // elements that html5ever and the crate handle in linear time)
+    for tag in ["b", "i", "em"] {
+        t.push(DepthCase { kind: DepthKind::InLink, tag, n: 300_000 });
+    }
     let mixed = match tier {
         Tier::Quick => 20,
         Tier::Thorough => 60,
@@ -334,6 +344,7 @@ fn run_case(seed: u64, idx: u64, tier: Tier, out: &mut CaseOut) {
             DepthKind::Mixed => "class:depth_mixed",
             DepthKind::ErrorFirst => "class:depth_error_first",
             DepthKind::StagedClone => "class:depth_staged_clone",
+            DepthKind::InLink => "class:depth_in_link",
         });
         out.max("depth", n as u64);
         let plain = Cfg::plain();
@@ -388,6 +399,18 @@ fn run_case(seed: u64, idx: u64, tier: Tier, out: &mut CaseOut) {
                 let o = render_string(&rich_over, &input, 1);
                 judge(out, "string_from_read", &o, &input[..input.len().min(60)], 1, &rich_over);
                 observe(out, &o, 1, &rich_over);
+            }
+            DepthKind::InLink => {
+                for empty in [false, true] {
+                    let mut input = b"<p>x <a href=\"/1\">".to_vec();
+                    let nest = gen::deep_nest(tag, n);
+                    // deep_nest ends in the word "deep"; an empty innermost element has none
+                    input.extend_from_slice(if empty { &nest[..nest.len() - 4] } else { &nest });
+                    crate::run::step("string_from_read:deep-nest-inside-link");
+                    let o = render_string(&plain, &input, 80);
+                    judge(out, "string_from_read", &o, &input[..input.len().min(60)], 80, &plain);
+                    observe(out, &o, 80, &plain);
+                }
             }
             DepthKind::StagedClone => {
                 let input = gen::deep_nest(tag, n);
